@@ -20,6 +20,10 @@ pub static mut FDT_AT_FORK: [FdEnt; NFD] = [CLOSED; NFD];
 /// The pipe that serves as launch-status channel for the current spawn
 /// (the first pipe created after `begin_spawn`).
 pub static mut STATUS_PIPE: Option<u8> = None;
+/// Pipelines: the status pipe of each stage is the first pipe created after the
+/// previous fork (after skipping SKIP_PIPES pipes created by the terminator itself).
+pub static mut AUTO_STATUS: bool = false;
+pub static mut SKIP_PIPES: u8 = 0;
 /// Index of the first pipe created by the spawn under analysis.
 pub static mut SPAWN_FIRST_PIPE: u8 = 0;
 
@@ -56,6 +60,7 @@ pub const NOKID: Kid = Kid {
 };
 
 pub static mut KIDS: [Kid; NKID] = [NOKID; NKID];
+pub static mut LAST_FORKED: usize = 0;
 pub static mut NKIDS: usize = 0;
 
 /// What the child of the k-th fork reports on its launch-status pipe:
@@ -79,6 +84,9 @@ pub unsafe fn reset() {
     CHILD_AT_FORK = 0;
     IN_CHILD = false;
     STATUS_PIPE = None;
+    AUTO_STATUS = false;
+    SKIP_PIPES = 0;
+    LAST_FORKED = 0;
     SPAWN_FIRST_PIPE = 0;
     KIDS = [NOKID; NKID];
     NKIDS = 0;
@@ -176,6 +184,7 @@ pub unsafe extern "C" fn fork() -> pid_t {
         return 0;
     }
     vmodel!(NKIDS < NKID, "MODEL/fork: child table exhausted (raise NKID)");
+    let this_status = STATUS_PIPE;
     let pid = 100 + NKIDS as pid_t;
     // the true wait-status word is chosen by the harness (default: exit(0));
     // a symbolic word makes ExitStatus' discriminant -- and through the niche
@@ -187,12 +196,13 @@ pub unsafe extern "C" fn fork() -> pid_t {
         status,
         reaped_by_us: false,
         holds: mask_of_open_pipe_ends(),
-        status_pipe: match STATUS_PIPE {
+        status_pipe: match this_status {
             Some(p) => p,
             None => 0xff,
         },
     };
     NKIDS += 1;
+    LAST_FORKED = NKIDS - 1;
     pid
 }
 
@@ -675,6 +685,9 @@ pub unsafe fn status_pipe_read(buf: *mut u8, n: usize) -> ssize_t {
     vcheck!(C07, !holds_w, "C07/status-read-without-deadlock: parent reads the launch-status pipe while still holding its write end");
     vmodel!(NKIDS >= 1, "MODEL/status-read: no child");
     let e = KID_LAUNCH_ERRNO[NKIDS - 1];
+    if AUTO_STATUS {
+        STATUS_PIPE = None;
+    }
     if e == 0 {
         return 0;
     }
